@@ -795,11 +795,22 @@ qb_ipcs_us_connect(struct qb_ipcs_service *s,
 	int32_t res = 0;
 	struct ipc_us_control *ctl;
 	char *shm_ptr;
+	char *slash;
 
 	qb_util_log(LOG_DEBUG, "connecting to client (%s)", c->description);
 
 	c->request.u.us.sock = c->setup.u.us.sock;
 	c->response.u.us.sock = c->setup.u.us.sock;
+
+	/* Set correct ownership if qb_ipcs_connection_auth_set() has been used
+	 * (the directory was created, for the peer's ids, before the accept
+	 * callback could say otherwise) */
+	(void)strlcpy(path, c->description, sizeof(path));
+	slash = strrchr(path, '/');
+	if (slash) {
+		*slash = '\0';
+		(void)chown(path, c->auth.uid, c->auth.gid);
+	}
 
 	snprintf(r->request, NAME_MAX, "%s-control-%s",
 		 c->description, s->name);
